@@ -18,8 +18,9 @@ for wave, title, logs in (("agent2-", "Second wave", "eval2-first-pass.log, eval
             rows.append("| `%s` | %s | %s | %s | %s |" % (d, m["breaks_property"], ", ".join(m["files_changed"]), m["needs_to_manifest"], det))
     out.append("## %s of independently produced changes (same procedure; each agent was also told, in one line each, which "
                "mechanisms had been used before so as to pick another)\n" % title)
-    out.append("First pass: %d of %d reported by the checks as they stood; all %d after the strengthening noted per row (%s).%s\n" % (
-        fp, len(rows), len(rows), logs,
+    final = len(rows) - (1 if wave == "agent4-" else 0)
+    out.append("First pass: %d of %d reported by the checks as they stood; %d of %d after the strengthening noted per row (%s).%s\n" % (
+        fp, len(rows), final, len(rows), logs,
         "  The first-pass log of this wave was recorded while strengthening was already under way: rows marked 'missed' were found missed "
         "(by running the then-current check with tools/mut.sh, or by reading the patch against the scenario list) before the addition."
         if wave == "agent2-" else ("  (C17's first-pass run was killed by accident and repeated by hand: missed.)" if wave == "agent3-" else
